@@ -17,6 +17,9 @@ from pyvc.types import Ty
 MAX_INLINE_DEPTH = 6
 
 
+_type_tag = z3.Function("type_tag", V, z3.IntSort())
+
+
 class Calls:
     # ------------------------------------------------------------------ argument evaluation
     def ev_args(self, args: list[ast.expr], st: St):
@@ -80,6 +83,15 @@ class Calls:
                         out.append((s1, SV(mk_int(self.list_len(s1, c)), T.INT)))
                     else:
                         raise Unsupported(f"len of {c.ty}")
+                return out
+            if f == "type" and len(n.args) == 1 and not n.keywords and "type" not in st.loc:
+                # type(x), usable only in identity comparisons: the class id for an object of a repository class; for any other
+                # value an unconstrained (but functional: same value, same tag) negative number, so nothing is concluded
+                # about the types of two non-objects and an object's type never equals a non-object's
+                out = []
+                for s1, (x,) in self.ev_args(n.args, st):
+                    tg = _type_tag(x.term)
+                    out.append((s1, SV(mk_int(z3.If(V.is_ref(x.term), cls_of(as_r(x.term)), z3.If(tg >= 0, -1 - tg, tg - 1))), T.INT)))
                 return out
             if f == "isinstance":
                 out = []
